@@ -6,7 +6,10 @@ Parses the Python source with `ast` (never imports it) and renders
  * the identifiers of `class ValidationWarning` (names only; warnings are outside C14),
  * for every module-level function, the `ValidationError.<X>` identifiers it refers to, in source order
    (`emits`), and which of them are wrapped as "feature {}: {}" / "property {}: {}",
- * the order in which `check_file` visits the containers of a block (`blockOrder`).
+ * the order in which `check_file` visits the containers of a block (`blockOrder`),
+ * for every reference to a `ValidationError` identifier the conditions it sits under (`reportSites`: which test
+   guards which message, nested in which other test / loop / handler), and the normalised statements of the two
+   verdict helpers `get_dim_units`, `tag_units_match_refs_units` (`helperShapes`).
 Anything it does not recognise raises ExtractError (a broken tie, handled by the check).
 """
 import ast
@@ -124,6 +127,71 @@ def block_order(tree):
     return order, tail
 
 
+def report_sites(tree):
+    """[(function, identifier, [enclosing conditions, outermost first])] for every reference to `ValidationError.<X>`
+    in a module-level function, in source order.  A condition is the normalised source (`ast.unparse`) of the `if`
+    test (prefixed by `not` in the else branch), `for <target> in <iter>` for a loop, `except <class>` for a handler:
+    the *shape* of the check functions - which test guards which message, and inside which other test"""
+    out = []
+
+    def refs(node):
+        found = []
+        for n in ast.walk(node):
+            if isinstance(n, ast.Attribute) and isinstance(n.value, ast.Name) and n.value.id == "ValidationError":
+                found.append((n.lineno, n.col_offset, n.attr))
+        return [a for _l, _c, a in sorted(found)]
+
+    def walk(fn, stmts, guards):
+        for st in stmts:
+            if isinstance(st, ast.If):
+                t = ast.unparse(st.test)
+                for a in refs(st.test):
+                    out.append((fn, a, guards))
+                walk(fn, st.body, guards + [t])
+                walk(fn, st.orelse, guards + ["not (%s)" % t])
+            elif isinstance(st, ast.For):
+                g = "for %s in %s" % (ast.unparse(st.target), ast.unparse(st.iter))
+                walk(fn, st.body, guards + [g])
+                walk(fn, st.orelse, guards)
+            elif isinstance(st, ast.Try):
+                walk(fn, st.body, guards)
+                for h in st.handlers:
+                    walk(fn, h.body, guards + ["except %s" % (ast.unparse(h.type) if h.type is not None else "")])
+                walk(fn, st.orelse, guards)
+                walk(fn, st.finalbody, guards)
+            elif isinstance(st, ast.FunctionDef):
+                walk(fn, st.body, guards)
+            elif isinstance(st, (ast.While, ast.With, ast.Match)):
+                if refs(st):
+                    raise ExtractError("%s: ValidationError used inside a %s statement (line %d)"
+                                       % (fn, type(st).__name__, st.lineno))
+            else:
+                for a in refs(st):
+                    out.append((fn, a, guards))
+
+    for fn in tree.body:
+        if isinstance(fn, ast.FunctionDef):
+            walk(fn.name, fn.body, [])
+    return out
+
+
+def helper_shapes(tree):
+    """normalised source of the helper functions the check functions call for their verdicts (no messages of their
+    own): get_dim_units, tag_units_match_refs_units - statement by statement"""
+    out = []
+    for fn in tree.body:
+        if isinstance(fn, ast.FunctionDef) and fn.name in ("get_dim_units", "tag_units_match_refs_units"):
+            body = [st for st in fn.body
+                    if not (isinstance(st, ast.Expr) and isinstance(st.value, ast.Constant))]   # docstring
+            lines = []
+            for st in body:
+                lines += ast.unparse(st).split("\n")
+            out.append((fn.name, [" ".join(l.split()) for l in lines]))
+    if len(out) != 2:
+        raise ExtractError("helper functions get_dim_units / tag_units_match_refs_units not found")
+    return out
+
+
 def extract(repo):
     path = os.path.join(repo, REL)
     tree = ast.parse(open(path, encoding="utf-8").read())
@@ -135,6 +203,11 @@ def extract(repo):
     emits = emissions(tree, set(ids))
     wraps = wrappers(tree)
     order, tail = block_order(tree)
+    sites = report_sites(tree)
+    for fn_, a, _g in sites:
+        if a not in ids:
+            raise ExtractError("%s refers to unknown ValidationError.%s" % (fn_, a))
+    helpers = helper_shapes(tree)
 
     L = []
     L.append("/- GENERATED by harness/extract/validator.py from nixio/validator.py — do not edit. -/")
@@ -172,6 +245,17 @@ def extract(repo):
     L.append("/-- `\"<word> {}: {}\".format(idx, msg)` wrappers: (function, word) -/")
     L.append("def wrappers : List (String × String) := " +
              lean_list("(%s, %s)" % (lean_str(f), lean_str(w)) for f, w in wraps))
+    L.append("")
+    L.append("/-- every reference to `ValidationError.<X>`: (function, identifier, enclosing conditions outermost first) -/")
+    L.append("def reportSites : List (String × MsgId × List String) := [")
+    L.append(",\n".join("  (%s, .%s, %s)" % (lean_str(fn_), a, lean_list(lean_str(g) for g in gs))
+                         for fn_, a, gs in sites))
+    L.append("]")
+    L.append("")
+    L.append("/-- normalised statements of the verdict helpers -/")
+    L.append("def helperShapes : List (String × List String) := [")
+    L.append(",\n".join("  (%s, %s)" % (lean_str(fn_), lean_list(lean_str(l) for l in ls)) for fn_, ls in helpers))
+    L.append("]")
     L.append("")
     L.append("/-- containers visited inside the `for block in nixfile.blocks` loop of check_file, in order -/")
     L.append("def blockOrder : List String := " + lean_list(lean_str(o) for o in order))
